@@ -93,8 +93,6 @@ class CallMixin:  # pylint:disable=too-many-public-methods
                 return self.call(self.bound_value(fn, func), args, kwargs, node, frame)
             if fn.is_async:
                 return CoroVal(func, list(args), dict(kwargs))
-            if any(isinstance(n, (ast.Yield, ast.YieldFrom)) for n in ast.walk(fn.node)):
-                raise Unsupported(f"generator function {fn.qualname}")
             return self.run_function(func, args, kwargs, node)
         if isinstance(func, ClassVal):
             return self.construct(func, args, kwargs, node, frame)
@@ -834,6 +832,13 @@ class CallMixin:  # pylint:disable=too-many-public-methods
             return sum(self.iterate(args[0], node, frame))
         if short == "print":
             return None
+        if short in ("abs", "round", "divmod", "ord", "chr", "bin", "hex", "pow", "float", "frozenset") and \
+                all(isinstance(x, (int, float, str, bool, tuple, list, set, frozenset)) for x in args) and not kwargs:
+            import builtins as _b
+            try:
+                return getattr(_b, short)(*args)
+            except (TypeError, ValueError) as err_:
+                self.raise_(type(err_).__name__, str(err_))
         if short == "id":
             self._keepalive = getattr(self, "_keepalive", [])
             self._keepalive.append(args[0])
